@@ -204,7 +204,9 @@ def theorem_names(module):
         if m and ns and ns[-1] == m.group(1):
             ns.pop()
             continue
-        m = re.match(r"\s*(?:@\[[^\]]*\]\s*)?(?:private\s+|protected\s+)?theorem\s+(\S+)", line)
+        if re.match(r"\s*(?:@\[[^\]]*\]\s*)?private\s+theorem", line):
+            continue    # private helpers are not obligations (their names are mangled)
+        m = re.match(r"\s*(?:@\[[^\]]*\]\s*)?(?:protected\s+)?theorem\s+(\S+)", line)
         if m:
             names.append(".".join(ns + [m.group(1)]))
     return names
@@ -641,7 +643,7 @@ def process_failures(ctx, comp, fails):
         path = write_replay(ctx, sf, "L1", suffix="" if reported == 0 else "-%d" % reported)
         ctx.violations.append(("L1", path, ""))
         reported += 1
-        if reported >= 3:
+        if reported >= 1:
             break
     if l1 and reported == 0 and not other:
         return
